@@ -2,10 +2,13 @@
 
 Case text (one line, see harness/h_dtdflush.c):
   dtdflush <ranks> <ndata> <threads> <sched> <window> <threshold> <spin> <owners> | <item> ; <item> ; ...
-  item = task "[@rank] <datum><r|w|x>[^] ..." | "F<d>" (flush of one tile) | "F*" (flush_all) | "!" (wait)
+  item = task "[@rank] <datum><r|h|w|x>[^] ..." | "F<d>" (flush of one tile) | "F*" (flush_all) | "!" (wait)
+         h = read through the datatype of the leading part of the tile (tiles have NB elements, element i of a
+         tile of value v holds v + i * PMOD; writers always use the whole tile)
   the harness ends every case with F* ; !
 Observation (both sides):
-  in: <t>=<v>,<v> ... | snap: <v>,<v>,.. ... | data: v ... | runs: c ... | null=<k>
+  in: <t>=<v>,<v> ... | snap: <v>,<v>,.. ... | data: v ... | runs: c ... | null=<k> torn=<n>
+  a tile is printed as v when all its elements belong to the value v, else as e0/e1/...
 """
 import os
 import re
@@ -21,7 +24,8 @@ MPIEXEC = ["mpiexec", "--allow-run-as-root", "--oversubscribe", "--mca", "mpi_yi
 
 # ---- case text -----------------------------------------------------------------
 def parse_case(case):
-    """-> (hdr, items); items = ('T', rank, [(d, m)], aff) | ('F', d or None) | ('!',)"""
+    """-> (hdr, items); items = ('T', rank, [(d, m)], aff, heads) | ('F', d or None) | ('!',)
+       m in r/w/x; heads = positions of the read flows that use the leading-part datatype (h in the text)"""
     head, _, body = case.partition("|")
     w = head.split()
     hdr = {"ranks": int(w[1]), "ndata": int(w[2]), "threads": int(w[3]), "sched": w[4], "window": int(w[5]),
@@ -35,7 +39,7 @@ def parse_case(case):
         elif f.startswith("F"):
             items.append(("F", None if f[1:] == "*" else int(f[1:])))
         else:
-            rank, aff, acc = None, None, []
+            rank, aff, acc, heads = None, None, [], set()
             for a in f.split():
                 if a == ".":
                     continue
@@ -45,10 +49,13 @@ def parse_case(case):
                 if a.endswith("^"):
                     aff = len(acc)
                     a = a[:-1]
+                if a[-1] == "h":
+                    heads.add(len(acc))
+                    a = a[:-1] + "r"
                 acc.append((int(a[:-1]), a[-1]))
             if aff is not None:
                 rank = hdr["owner"][acc[aff][0]]
-            items.append(("T", rank, acc, aff))
+            items.append(("T", rank, acc, aff, frozenset(heads)))
     return hdr, items
 
 
@@ -57,8 +64,9 @@ def item_txt(it):
         return "!"
     if it[0] == "F":
         return "F*" if it[1] is None else "F%d" % it[1]
-    _, rank, acc, aff = it
-    s = " ".join("%d%s%s" % (d, m, "^" if aff == j else "") for j, (d, m) in enumerate(acc)) if acc else "."
+    _, rank, acc, aff = it[:4]
+    heads = it[4] if len(it) > 4 else ()
+    s = " ".join("%d%s%s" % (d, "h" if j in heads else m, "^" if aff == j else "") for j, (d, m) in enumerate(acc)) if acc else "."
     return s if aff is not None else "@%d %s" % (rank, s)
 
 
@@ -88,7 +96,7 @@ def replay(case):
     tid = 0
     for it in items:
         if it[0] == "T":
-            _, rank, acc, aff = it
+            _, rank, acc, aff = it[:4]
             ins = [cur[d] for (d, m) in acc if m != "w"]
             v = fval(tid, ins)
             for (d, m) in acc:
@@ -108,8 +116,20 @@ def replay(case):
     return ins_all, snaps, list(cur)
 
 
+NB = 4          # elements of a tile (harness/h_dtdflush.c)
+PMOD_E = 1000003
+
+
+def tile_elems(txt):
+    """elements of a printed tile: 'v' stands for v, v + PMOD, v + 2 PMOD ..."""
+    if "/" in txt:
+        return [int(x) for x in txt.split("/")]
+    v = int(txt)
+    return [v + i * PMOD_E for i in range(NB)]
+
+
 def parse_obs(obs):
-    m = re.match(r"^in:(.*)\| snap:(.*)\| data:(.*)\| runs:(.*)\| null=(-?\d+)\s*$", obs)
+    m = re.match(r"^in:(.*)\| snap:(.*)\| data:(.*)\| runs:(.*)\| null=(-?\d+) torn=(-?\d+)\s*$", obs)
     if not m:
         return None
     ins = []
@@ -117,9 +137,9 @@ def parse_obs(obs):
         k, _, v = tok.partition("=")
         ins.append([] if v == "-" else v.split(","))
     try:
-        snaps = [[int(x) for x in g.split(",")] for g in m.group(2).split()]
-        return {"ins": ins, "snaps": snaps, "data": [int(x) for x in m.group(3).split()],
-                "runs": [int(x) for x in m.group(4).split()], "null": int(m.group(5))}
+        snaps = [[tile_elems(x) for x in g.split(",")] for g in m.group(2).split()]
+        return {"ins": ins, "snaps": snaps, "data": [tile_elems(x) for x in m.group(3).split()],
+                "runs": [int(x) for x in m.group(4).split()], "null": int(m.group(5)), "torn": int(m.group(6))}
     except ValueError:
         return None
 
@@ -146,21 +166,28 @@ def verdict(case, obs):
             return ("runs", "task %d ran %d times (summed over the ranks)" % (t, c))
     if o["null"] != 0:
         return ("null", "%d flows received a NULL data pointer" % o["null"])
-    # owner's copy after flush + wait = value of the last inserted writer
+    # owner's copy after flush + wait = value of the last inserted writer, element by element
     for k, ((want, constrained), got) in enumerate(zip(snaps, o["snaps"])):
         for d in sorted(constrained):
-            if got[d] != want[d]:
-                return ("owner-copy", "after wait %d the owner (rank %d) of datum %d holds %d; the last task inserted "
-                        "that writes it produced %d" % (k, hdr["owner"][d], d, got[d], want[d]))
-    for d, (g, w) in enumerate(zip(o["data"], final)):
-        if g != w:
-            return ("owner-copy", "after the final flush_all and wait the owner (rank %d) of datum %d holds %d; the "
-                    "last task inserted that writes it produced %d" % (hdr["owner"][d], d, g, w))
+            for i, (g, w) in enumerate(zip(got[d], tile_elems(str(want[d])))):
+                if g != w:
+                    return ("owner-copy", "after wait %d element %d of the copy of datum %d at its owner (rank %d) is %d; "
+                            "the last task inserted that writes the tile left %d there"
+                            % (k, i, d, hdr["owner"][d], g, w))
+    for d, (got, want) in enumerate(zip(o["data"], final)):
+        for i, (g, w) in enumerate(zip(got, tile_elems(str(want)))):
+            if g != w:
+                return ("owner-copy", "after the final flush_all and wait element %d of the copy of datum %d at its owner "
+                        "(rank %d) is %d; the last task inserted that writes the tile left %d there"
+                        % (i, d, hdr["owner"][d], g, w))
     # tasks inserted after a flush (and every other task) see the value of the last inserted writer
     for t, (got, want) in enumerate(zip(o["ins"], ins)):
         if got != [str(v) for v in want]:
             return ("task-input", "task %d observed inputs %s, the last inserted writers produced %s"
                     % (t, ",".join(got) or "-", ",".join(map(str, want)) or "-"))
+    if o["torn"] != 0:
+        return ("task-input", "%d elements seen by task bodies did not belong to the value of element 0 of their tile"
+                % o["torn"])
     return None
 
 
@@ -200,9 +227,35 @@ class FlushGen:
         r = self.r
         seq = [a for (_, a) in self.sg.sequence(ndata, ntasks, style, repeats=False)] if ntasks else []
         items = []
+        self.seen = set()        # tiles named in this phase (a tile is flushed, hence re-created, at most at phase ends)
+        prod = {}                # rank of the last writer of the tile in this phase
         for acc in seq:
             rk, aff = self.place(acc, ranks, owner)
-            items.append(("T", rk, acc, aff))
+            # reads through the leading-part datatype: never the first access of a tile since it was created
+            # (the runtime moves a tile with the datatype of its first access: parsec_insert_dtd_task sets
+            # tile->arena_index once, a fake first writer inherits it)
+            # ... and only on the rank that produced the current version (no message): the receiving side of a
+            # message takes the datatype of the consumers, "it would not make sense to receive different amount"
+            # (remote_dep_mpi_retrieve_datatype): consumers of one version on one rank must agree on the size
+            heads = set()
+            for j, (d, m) in enumerate(acc):
+                if m == "r" and d in self.seen and rk == prod.get(d, owner[d]) and r.chance(1, 2):
+                    heads.add(j)
+            for (d, m) in acc:
+                self.seen.add(d)
+                if m != "r":
+                    prod[d] = rk
+            items.append(("T", rk, acc, aff, frozenset(heads)))
+        # a last look at the leading part of a tile on the rank of its last writer, when that is not the owner: the
+        # flush then follows an access that used the smaller datatype and still has to bring the whole tile home
+        lastw = {}
+        for it in items:
+            for (d, m) in it[2]:
+                if m != "r":
+                    lastw[d] = it[1]
+        for d in sorted(lastw):
+            if lastw[d] != owner[d] and r.chance(1, 2):
+                items.append(("T", lastw[d], [(d, "r")], None, frozenset([0])))
         # single-tile flushes in the middle: after the last use of the tile in this phase
         lastuse = {}
         for i, it in enumerate(items):
@@ -275,7 +328,7 @@ def class_stale_desc(hdr, items):
             cands = []                # (position, flow index, number of flows) of T2
             for pos, it in enumerate(ph):
                 if it[0] == "T":
-                    _, rank, acc, aff = it
+                    _, rank, acc, aff = it[:4]
                     for i, (d, m) in enumerate(acc):
                         lwr = owner[d] if lw[d] is None else lw[d]
                         if m == "r":
@@ -308,7 +361,7 @@ def class_overwrite(hdr, items):
     pend = [False] * nd
     for it in items:
         if it[0] == "T":
-            _, rank, acc, aff = it
+            _, rank, acc, aff = it[:4]
             for (d, m) in acc:
                 if m == "r":
                     if rank == owner[d] and inplace[d]:
@@ -374,7 +427,8 @@ class C17(Check):
     theorems = ("C17_owner_copy_after_wait", "C17_flush_brings_version_home", "C17_owner_copy_final",
                 "C17_flush_transparent", "C17_observations_sequential", "C17_last_written_value",
                 "C17_flush_call_brings_home", "C17_flush_all_call_brings_home",
-                "C17_flush_all_returns_last_written", "C17_progress")
+                "C17_flush_all_returns_last_written", "C17_progress",
+                "C17_reads_do_not_change_what_a_flush_returns")
     comp = "dtdflush"
     extract_file = "theories/Extract/Extract_DTDFlush.v"
     extracted = ("dtdflush",)
@@ -404,7 +458,13 @@ class C17(Check):
                   "parsec_taskpool_wait under mpiexec -n 1..4; after every wait each owner reports its tiles, every task the "
                   "values it read; compared with the extracted model (engine folded over a pseudo-random schedule) and decided "
                   "by a Python replay.")
-    level_note = ("Trusted: Coq kernel, extraction, harness bodies, Open MPI / mpiexec with oversubscription, MPI_Reduce merge of "
+    level_note = ("The model works on tile VALUES: a tile is moved as a whole, by the datatype of its first access "
+                  "(parsec_insert_dtd_task sets tile->arena_index once; the flush tasks ship and copy with it). The harness "
+                  "uses tiles of 4 elements (element i of a tile of value v holds v + i*1000003) and two arena datatypes "
+                  "(whole tile / leading 2 elements); writers and the first access of a tile use the whole tile, later reads "
+                  "on the rank that produced the version may use the leading part (consumers of one version on one rank must "
+                  "agree on the size: the receiving side takes the consumers' datatype); the oracle compares every element of "
+                  "the owner's copy. Trusted: Coq kernel, extraction, harness bodies, Open MPI / mpiexec with oversubscription, MPI_Reduce merge of "
                   "the per-rank observations. The model orders a writer after the earlier readers of the tile on every rank "
                   "(one global chain); the runtime orders tasks of different ranks only through the data they exchange. Not "
                   "modelled: remote copies, activation messages, descriptors of remote tasks, the window warm-up. In runs with "
@@ -417,7 +477,9 @@ class C17(Check):
                  "erasure of flush tasks) + observation differential of the real multi-rank DTD runtime against the extracted model")
     rule = ("1..4 ranks, 1..6 tiles with a generated ownership map (cyclic / one owner / random), 1..4 phases of 0..24 tasks "
             "(styles of C03: mixed, reader groups, RW chains, independent groups, wide) placed by a rank value (two out of "
-            "three times away from the owner of a written tile) or by PARSEC_AFFINITY on a flow; single-tile flushes after the "
+            "three times away from the owner of a written tile) or by PARSEC_AFFINITY on a flow; reads through the whole-tile or "
+            "the leading-part datatype, one tile in two written off its owner gets a last leading-part read before its flush; "
+            "single-tile flushes after the "
             "last use of the tile in the phase, flushes of untouched tiles, repeated flushes, flush_all; every phase ends "
             "with all used tiles flushed and a wait (one rank: also waits without flush); 8 configurations of (ranks, "
             "threads, scheduler, window); non-trivial = a tile is written by a task placed away from its owner; distinct = case text")
@@ -687,7 +749,8 @@ class C17(Check):
     def dist(self, cases):
         d = {"cases": len(cases), "ranks": {}, "threads": {}, "sched": {}, "window": {}, "tasks_hist": {},
              "flush_single": 0, "flush_all": 0, "waits": 0, "tasks_placed_off_owner_of_written_tile": 0,
-             "affinity_on_flow": 0, "max_tasks": 0}
+             "affinity_on_flow": 0, "max_tasks": 0, "reads_of_leading_part": 0,
+             "flushes_after_a_leading_part_read_of_a_tile_written_off_owner": 0}
         for c in cases:
             try:
                 hdr, items = parse_case(c)
@@ -699,8 +762,20 @@ class C17(Check):
             d["max_tasks"] = max(d["max_tasks"], nt)
             for k in ("ranks", "threads", "sched", "window"):
                 d[k][str(hdr[k])] = d[k].get(str(hdr[k]), 0) + 1
+            lasthead, remote = {}, {}
             for it in items:
+                if it[0] == "T":
+                    for j, (x, m) in enumerate(it[2]):
+                        lasthead[x] = j in it[4]
+                        if m != "r":
+                            remote[x] = it[1] != hdr["owner"][x]
+                    d["reads_of_leading_part"] += len(it[4])
                 if it[0] == "F":
+                    for x in (list(lasthead) if it[1] is None else [it[1]]):
+                        if lasthead.get(x) and remote.get(x):
+                            d["flushes_after_a_leading_part_read_of_a_tile_written_off_owner"] += 1
+                        lasthead.pop(x, None)
+                        remote.pop(x, None)
                     d["flush_all" if it[1] is None else "flush_single"] += 1
                 elif it[0] == "!":
                     d["waits"] += 1
